@@ -61,7 +61,7 @@ Foreign(d) ==
   \ ( Keywords(d) \cup {IdKw(d)} \cup {K_required}
       \cup (IF d = 7 THEN {K_then, K_else} ELSE {})
       \cup (IF d <= 4 THEN {K_exclusiveMinimum, K_exclusiveMaximum} ELSE {}) )
-ForeignValsAll == { JNull, JTrue, N1, Str(S_a), Arr(<<>>), Arr(<<Str(S_a)>>), EmptyObj, TInt, Obj1(S_a, Arr(<<Str(S_b)>>)) }
+ForeignValsAll == { JNull, JTrue, N0, N1, N2, Str(S_a), Arr(<<>>), Arr(<<Str(S_a)>>), EmptyObj, TInt, Obj1(S_a, Arr(<<Str(S_b)>>)) }
 
 \* ---- wrappers ----
 WrapKinds(d) == {"items", "itemsArr", "properties", "patternProperties", "additionalProperties", "dependencies"}
@@ -96,9 +96,9 @@ WrapIn(d, w, S) ==
     [] w = "then" -> Obj2(K_if, TInt, K_then, S)
     [] w = "else" -> Obj2(K_if, TInt, K_else, S)
 
-ForeignBaseQuick == {K_type, K_properties, K_additionalProperties, K_items, K_required, K_minimum, K_enum}
+ForeignBaseQuick == {K_type, K_properties, K_additionalProperties, K_items, K_required, K_minimum, K_enum, K_contains}
 ForeignBaseAll == AllNamed
-ForeignValsQuick == { JTrue, TInt, Str(S_a) }
+ForeignValsQuick == { JTrue, TInt, Str(S_a), N0, N2 }
 
 Init == schema = EmptyObj /\ wrapped = FALSE /\ nforeign = 0
 
